@@ -105,7 +105,7 @@ Proof.
   intros Hne. assert (Hlen : (1 <= N.of_nat (length ws))%N).
   { destruct ws; [congruence|]. cbn [length]. lia. }
   unfold mb_merge. cbn [c_lower c_wires c_array].
-  destruct (N.ltb_spec lo (lo + N.of_nat (length ws))) as [_|H]; [|lia].
+  destruct (N.leb_spec lo (lo + N.of_nat (length ws))) as [_|H]; [|lia].
   destruct (N.ltb_spec (lo + N.of_nat (length ws)) (lo + N.of_nat (length ws))) as [H|_]; [lia|].
   replace (lo + N.of_nat (length ws) - lo - N.of_nat (length ws))%N with 0%N by lia.
   reflexivity.
